@@ -327,3 +327,33 @@ func H_C01_nested() {
 	checkC01(expr, d, m, nil, nil)
 	vCover("reached")
 }
+
+// H_C01_floats: float32 / float64 leaves against boundary float spellings.
+func H_C01_floats() {
+	lit := []string{"1.5", "3.5e38", "1e39", "16777217", "1.00000005960464477539062500001", "0.1", "010", "0x10", "x", "-0"}[vChoose(10)]
+	op := vChoose(4)
+	var v interface{}
+	var r *rv
+	switch vChoose(4) {
+	case 0:
+		x := vFloat32()
+		vAssume(x == x)
+		v, r = x, &rv{kind: rvF32, f32: x}
+	case 1:
+		x := vFloat64()
+		vAssume(x == x)
+		v, r = x, &rv{kind: rvF64, f64: x}
+	case 2:
+		x := vFloat32()
+		vAssume(x == x)
+		v, r = []float32{x}, &rv{kind: rvList, el: elConcrete, elKind: rvF32, items: []*rv{{kind: rvF32, f32: x}}}
+	default:
+		x := vFloat32()
+		vAssume(x == x)
+		v, r = []interface{}{x, "s"}, &rv{kind: rvList, el: elIface, items: []*rv{{kind: rvF32, f32: x}, {kind: rvStr, s: "s"}}}
+	}
+	d := map[string]interface{}{"x": v}
+	m := &rv{kind: rvMap, keys: []string{"x"}, vals: []*rv{r}}
+	checkC01(leavesC01("x", op, lit), d, m, nil, nil)
+	vCover("reached")
+}
